@@ -459,13 +459,13 @@ Section Sim2.
   Hypothesis U_small : (length U <= 32)%nat.
   Variable ports : list port.
 
-  Lemma Rel2_step : forall w al pend tg e w' o,
-    Rel2 w al -> Inv U ports w pend tg -> ev_ok U e -> evok ports e ->
+  Lemma Rel2_step : forall w al e w' o,
+    Rel2 w al -> Inv U ports w -> ev_ok U e -> evok ports e ->
     step ports w e = Some (w', o) ->
     o = snd (astep ports al e) /\ Rel2 w' (fst (astep ports al e)).
   Proof.
-    intros w al pend tg e w' o [R Rv Ok Tw] HI E1 E2 St.
-    destruct (Rel_step U U_small ports w al pend tg e w' o R HI E1 E2 St) as [Eo R'].
+    intros w al e w' o [R Rv Ok Tw] HI E1 E2 St.
+    destruct (Rel_step U U_small ports w al e w' o R HI E1 E2 St) as [Eo R'].
     destruct (nrt_event e) eqn:Ne.
     - (* non-realtime events *)
       destruct (astep_nrt ports al e Ne) as [A1 [A2 A3]].
@@ -531,13 +531,13 @@ Section Sim2.
           inversion Jcr as [| ? ? Hmok _]; subst.
           destruct (rt_deliver (wr w) m) as [r' |] eqn:D; [| discriminate].
           inversion St; subst w' o; clear St.
-          destruct Hm as [| | ns T' Hst HTw]; cbn [rt_deliver] in D; cbn [fst snd] in *.
+          destruct Hm as [| | ns T' ans Hst HTw]; cbn [rt_deliver] in D; cbn [fst snd] in *.
           -- inversion D; subst r'. split; [reflexivity |].
              constructor; cbn [wn wr rstorage a_rtab a_v7]; assumption.
           -- inversion D; subst r'. split; [reflexivity |].
              constructor; cbn [wn wr rstorage a_rtab a_v7]; assumption.
           -- split; [reflexivity |]. destruct Hmok as [Wns Zns].
-             destruct (pq_pop (pending (wr w))) as [p' |]; [| discriminate].
+             destruct (if ans =? -1 then Some (pending (wr w)) else pq_pop (pending (wr w))) as [p' |]; [| discriminate].
              constructor; cbn [wn wr a_rtab a_v7]; try assumption.
              ++ destruct (rstorage (wr w)) as [old |] eqn:Es.
                 ** destruct (cloneValues ns old) as [c |] eqn:C; [| discriminate].
@@ -560,33 +560,32 @@ Section Sim2.
 End Sim2.
 
 Lemma refine_run_values : forall U ports, (length U <= 32)%nat ->
-  forall evs w al pend tg tr fin,
-  Inv U ports w pend tg -> Rel2 w al -> Forall (ev_ok U) evs -> Forall (evok ports) evs ->
-  run ports w evs = (tr, fin) -> quiescent_from pend tg evs tr = true ->
+  forall evs w al tr fin,
+  Inv U ports w -> Rel2 w al -> Forall (ev_ok U) evs -> Forall (evok ports) evs ->
+  run ports w evs = (tr, fin) ->
   tr = arun ports al evs.
 Proof.
-  intros U ports US. induction evs as [| e es IH]; intros w al pend tg tr fin HI HR E1 E2 Hr Hq.
+  intros U ports US. induction evs as [| e es IH]; intros w al tr fin HI HR E1 E2 Hr.
   - cbn in Hr. inversion Hr; subst. reflexivity.
   - inversion E1; subst. inversion E2; subst.
-    destruct (Inv_step U ports w pend tg e US HI H1 H3) as [w' [o [S Nx]]].
+    destruct (Inv_step U ports w e US HI H1 H3) as [w' [o [S Nx]]].
     cbn [run] in Hr. rewrite S in Hr. destruct (run ports w' es) as [tr' fin'] eqn:R.
     inversion Hr; subst tr fin; clear Hr.
-    rewrite quiescent_from_step in Hq.
-    destruct (qstep pend tg e o) as [[p' tg'] |] eqn:Q; [| discriminate].
-    destruct (Rel2_step U US ports w al pend tg e w' o HR HI H1 H3 S) as [Eo HR'].
+    destruct (Rel2_step U US ports w al e w' o HR HI H1 H3 S) as [Eo HR'].
     cbn [arun]. destruct (astep ports al e) as [al' o'] eqn:A. cbn [fst snd] in Eo, HR'.
     rewrite Eo. f_equal.
-    apply (IH w' al' p' tg' tr' fin' (Nx _ _ eq_refl) HR' H2 H4 R Hq).
+    apply (IH w' al' tr' fin' Nx HR' H2 H4 R).
 Qed.
 
-(* Every quiescent history: the model's records - parameter messages with
-   their values included - are exactly the abstract specification's. *)
-Theorem refine_quiescent_values : forall ports evs tr fin U,
+(* Every history, whatever the order in which the two halves' messages are
+   delivered: the model's records - parameter messages with their values
+   included - are exactly the abstract specification's. *)
+Theorem refine_values : forall ports evs tr fin U,
   (length U <= 32)%nat -> incl (ccids evs) U -> Forall (evok ports) evs ->
-  run ports world0 evs = (tr, fin) -> quiescent evs tr = true ->
+  run ports world0 evs = (tr, fin) ->
   tr = arun ports astate0 evs.
 Proof.
-  intros ports evs tr fin U US Hi He Hr Hq.
+  intros ports evs tr fin U US Hi He Hr.
   eapply (refine_run_values U ports US); try eassumption.
   - apply Inv_init.
   - apply Rel2_0.
